@@ -68,6 +68,10 @@ pub struct World {
     pub text_variant: u8,
     /// column order of the vertex file, may contain extra columns
     pub vertex_cols: Vec<String>,
+    /// blank lines in the edge / vertex CSV files (the CSV reader skips them; a scan of the file's lines
+    /// counts them): 0 none, 1 one after the last record, 2 after the header and in the middle as well
+    #[serde(default)]
+    pub csv_blank_lines: u8,
     pub explicit_counts: bool,
     pub traversal: Traversal,
     pub algorithm: Value,
@@ -239,7 +243,7 @@ impl World {
             // extra columns, some named almost like the known ones (they must be ignored all the same)
             let n = r.range(1, 2);
             for _ in 0..n {
-                let c = r.pick(&["elevation", "X", "Y", " x", "y ", "Vertex_Id", "name", "VERTEX_ID"]).to_string();
+                let c = r.pick(&["elevation", "X", "Y", " x", "y ", "Vertex_Id", "name", "VERTEX_ID", "color", "note", "tag"]).to_string();
                 if !vertex_cols.contains(&c) {
                     vertex_cols.push(c);
                 }
@@ -259,6 +263,7 @@ impl World {
             gz_misnamed: false,
             text_variant: 0,
             vertex_cols,
+            csv_blank_lines: 0,
             explicit_counts: r.chance(0.3),
             traversal: Traversal::Distance { unit: "kilometers".into() },
             algorithm: json!({"type": "a*"}),
@@ -322,14 +327,26 @@ impl World {
 
     pub fn edges_csv(&self) -> String {
         let mut s = String::from("edge_id,src_vertex_id,dst_vertex_id,distance\n");
+        if self.csv_blank_lines >= 2 {
+            s.push('\n');
+        }
         for (i, (a, b, d)) in self.edges.iter().enumerate() {
             s.push_str(&format!("{},{},{},{}\n", i, a, b, fmt_f(*d)));
+            if self.csv_blank_lines >= 2 && i == self.edges.len() / 2 {
+                s.push('\n');
+            }
+        }
+        if self.csv_blank_lines >= 1 {
+            s.push('\n');
         }
         s
     }
     pub fn vertices_csv(&self) -> String {
         let mut s = self.vertex_cols.join(",");
         s.push('\n');
+        if self.csv_blank_lines >= 2 {
+            s.push('\n');
+        }
         for (i, (x, y)) in self.coords.iter().enumerate() {
             let row: Vec<String> = self
                 .vertex_cols
@@ -339,10 +356,25 @@ impl World {
                     "x" => fmt_f(*x),
                     "y" => fmt_f(*y),
                     "name" | "Y" => format!("v{}", i),
+                    // free text: values that start with '#', quoted values with a comma or a line break inside
+                    "color" => format!("#{:06x}", (i * 2654435761) & 0xffffff),
+                    "tag" => if i % 2 == 0 { format!("#{}", i) } else { format!("t{}", i) },
+                    "note" => match i % 4 {
+                        0 => format!("\"two\nlines {}\"", i),
+                        1 => format!("\"with, comma {}\"", i),
+                        2 => format!("\"say \"\"{}\"\"\"", i),
+                        _ => format!("plain {}", i),
+                    },
                     _ => format!("{}", 481000 + i),
                 })
                 .collect();
             s.push_str(&row.join(","));
+            s.push('\n');
+            if self.csv_blank_lines >= 2 && i == self.coords.len() / 2 {
+                s.push('\n');
+            }
+        }
+        if self.csv_blank_lines >= 1 {
             s.push('\n');
         }
         s
